@@ -39,10 +39,14 @@ func sanitizeSelectionSet(ctx *PlanningContext, selectionSet ast.SelectionSet, i
 			childSelectionSet, sf := sanitizeSelectionSet(ctx, s.SelectionSet, insertionPoint)
 			scrubFields.Merge(sf)
 
-			var addedFields []string
-			childSelectionSet, addedFields = addScrubFieldsToSelectionSet(ctx, childSelectionSet, s.TypeCondition)
-			for _, f := range addedFields {
-				scrubFields.Set(insertionPoint, s.TypeCondition, f)
+			// a fragment on an object is unfolded into the enclosing selection set, which gets it's helper
+			// fields as a whole: a helper id added here would get the id selected next to the fragment scrubbed
+			if s.ObjectDefinition.Kind == ast.Interface || s.ObjectDefinition.Kind == ast.Union {
+				var addedFields []string
+				childSelectionSet, addedFields = addScrubFieldsToSelectionSet(ctx, childSelectionSet, s.TypeCondition)
+				for _, f := range addedFields {
+					scrubFields.Set(insertionPoint, s.TypeCondition, f)
+				}
 			}
 
 			switch s.ObjectDefinition.Kind {
